@@ -288,7 +288,9 @@ CC_ASSUMPTIONS = [
 def collect_cc(prop, tier):
     """explore the SlottedCC universes of the tier, replay every state into the real e-graph and return
     (findings of `prop`, coverage, tables)"""
-    variants = ["default", "checks"] if prop == "C08" else ["default"]
+    # C08: also with the crate's internal assertions compiled in; thorough: also the explanations build with the syntactic
+    # insertion path (add_syn_expr) - two of the repaired panics (D13, D19) exist only there
+    variants = (["default", "checks"] + (["expl"] if tier == "thorough" else [])) if prop == "C08" else ["default"]
     namings = "all" if prop == "C11" else "rotate"
     # C04 / C05: TLC also emits the complete expected match sets of the pattern pool (EMatch.tla)
     tables = cc_tables(tier, prop, with_matches=prop in ("C04", "C05"))
@@ -298,7 +300,7 @@ def collect_cc(prop, tier):
     for variant in variants:
         for u, (uni, tpath, st, states, upath) in tables.items():
             out = run_bin(variant, "cc_replay", [upath, tpath, namings, ncpu()],
-                          env={"VERIF_MAXPATHS": 64 if tier == "quick" else 128})
+                          env=dict({"VERIF_MAXPATHS": 64 if tier == "quick" else 128}, **({"VERIF_SYN_ADD": "1"} if variant == "expl" else {})))
             recs = jsonl(out)
             summ = [r for r in recs if r["kind"] == "summary"][0]
             if summ.get("hang"):
